@@ -35,7 +35,19 @@ type op struct {
 	Outs  map[string]string `json:"outs,omitempty"`  // recover: item -> ok|handleErr|notNeeded|checkErr|decodeErr (default ok)
 	Key   string            `json:"key,omitempty"`   // inject
 	Val   string            `json:"val,omitempty"`   // inject: "event" (valid JSON of typ/item) | "garbage"
-	Impl  map[string]any    `json:"impl,omitempty"`
+	// recover only: actions other goroutines perform BETWEEN the scan and the handling of an event (fired
+	// from inside the handler's Decode of item At, i.e. after the scan transaction and before the event's
+	// check/handle/delete), and a scan transaction failing after that many entries
+	During        []*during      `json:"during,omitempty"`
+	ScanFailAfter *int           `json:"scan_fail_after,omitempty"`
+	Impl          map[string]any `json:"impl,omitempty"`
+}
+
+type during struct {
+	At   string `json:"at"`
+	Do   string `json:"do"` // "commit" | "log"
+	Item string `json:"item"`
+	Typ  string `json:"typ,omitempty"`
 }
 
 type kase struct {
@@ -52,9 +64,13 @@ type callLog struct {
 	mu    sync.Mutex
 	calls [][3]string
 	outs  map[string]string
+	hook  func(kind, item string) // called (outside the lock) before a call is answered
 }
 
 func (c *callLog) add(kind, typ, item string) string {
+	if c.hook != nil {
+		c.hook(kind, item)
+	}
 	c.mu.Lock()
 	defer c.mu.Unlock()
 	c.calls = append(c.calls, [3]string{kind, typ, item})
@@ -87,7 +103,7 @@ func (h handler) Check(_ context.Context, v any) (bool, error) {
 	switch h.log.add("check", h.typ, v.(string)) {
 	case "checkErr":
 		return false, errors.New("scripted check error")
-	case "notNeeded":
+	case "notNeeded", "notNeededDelErr":
 		return false, nil
 	}
 	return true, nil
@@ -108,6 +124,44 @@ type obsKV struct {
 	park   bool
 	parked chan uint64
 	gates  map[uint64]chan bool
+	// fault injection (only while a recover op that asks for it runs)
+	failDelete    map[string]bool // items whose Delete fails
+	scanFailAfter int             // >= 0: the next Scan fails after that many entries
+}
+
+type errEntry struct{ err error }
+
+func (e errEntry) Pair() ([]byte, []byte) { return nil, nil }
+func (e errEntry) Error() error          { return e.err }
+
+// Scan: optionally a scan transaction that fails after n entries (Lithium reports that with an entry
+// carrying the error; Hydro skips it and the channel closes)
+func (o *obsKV) Scan(prefix []byte) (<-chan kv.ScanEntry, func()) {
+	o.mu.Lock()
+	n := o.scanFailAfter
+	o.scanFailAfter = -1
+	o.mu.Unlock()
+	ch, abort := o.KV.Scan(prefix)
+	if n < 0 {
+		return ch, abort
+	}
+	out := make(chan kv.ScanEntry)
+	go func() {
+		defer close(out)
+		i := 0
+		for e := range ch {
+			if i == n {
+				abort()
+				break
+			}
+			out <- e
+			i++
+		}
+		out <- errEntry{errors.New("injected scan failure")}
+		for range ch { // let the real scanner finish
+		}
+	}()
+	return out, func() {}
 }
 
 func idOfKey(key []byte) uint64 {
@@ -155,6 +209,14 @@ func (o *obsKV) Put(key, val []byte) error {
 func (o *obsKV) Delete(key []byte) error {
 	o.mu.Lock()
 	defer o.mu.Unlock()
+	if len(o.failDelete) > 0 {
+		if val, err := o.KV.Get(key); err == nil {
+			var ev corewal.HydroEvent
+			if json.Unmarshal(val, &ev) == nil && o.failDelete[string(ev.Item)] {
+				return errors.New("injected delete failure")
+			}
+		}
+	}
 	return o.KV.Delete(key)
 }
 
@@ -184,7 +246,7 @@ func (d *driver) open(reg []string) error {
 		if err := d.lith.Open(d.path, 0600, time.Second); err != nil {
 			return err
 		}
-		d.obs = &obsKV{KV: d.lith, parked: make(chan uint64, 1), gates: map[uint64]chan bool{}}
+		d.obs = &obsKV{KV: d.lith, parked: make(chan uint64, 1), gates: map[uint64]chan bool{}, scanFailAfter: -1}
 		d.h = corewal.VerifNewHydro(d.obs)
 	}
 	for _, t := range reg {
@@ -367,15 +429,96 @@ func (d *driver) exec(o *op) {
 		if err := d.open(o.Reg); err != nil {
 			impl["err"] = "open:" + err.Error()
 		}
+	case "failput":
+		id := d.idOf[o.Item]
+		d.obs.mu.Lock()
+		g := d.obs.gates[id]
+		delete(d.obs.gates, id)
+		d.obs.mu.Unlock()
+		if g == nil {
+			impl["err"] = "no-gate"
+			return
+		}
+		g <- false // the Put returns an error: Log fails after it consumed the id
+		err := <-d.done[o.Item]
+		delete(d.done, o.Item)
+		impl["err"] = errClass(err)
 	case "recover":
+		fired := []map[string]any{}
+		pending := append([]*during{}, o.During...)
 		d.log.mu.Lock()
 		d.log.calls = nil
 		d.log.outs = o.Outs
+		d.log.hook = nil
+		if len(pending) > 0 {
+			d.log.hook = func(kind, item string) {
+				if kind != "decode" {
+					return
+				}
+				for i, a := range pending {
+					if a == nil || a.At != item {
+						continue
+					}
+					pending[i] = nil
+					f := map[string]any{"at": a.At, "do": a.Do, "item": a.Item}
+					switch a.Do {
+					case "commit":
+						d.obs.mu.Lock()
+						c := d.commits[a.Item]
+						d.obs.mu.Unlock()
+						if c == nil {
+							continue
+						}
+						if err := c(); err != nil {
+							f["err"] = err.Error()
+						}
+					case "log":
+						n0 := len(d.obs.trace)
+						c, err := d.h.Log(a.Typ, a.Item)
+						if err != nil {
+							f["err"] = err.Error()
+							continue
+						}
+						d.obs.mu.Lock()
+						d.commits[a.Item] = c
+						for _, ev := range d.obs.trace[n0:] {
+							if ev[0] == "seq" {
+								f["id"] = ev[1]
+							}
+						}
+						d.obs.mu.Unlock()
+						f["typ"] = a.Typ
+					}
+					fired = append(fired, f)
+				}
+			}
+		}
 		d.log.mu.Unlock()
+		if d.obs != nil {
+			d.obs.mu.Lock()
+			d.obs.failDelete = map[string]bool{}
+			for it, oc := range o.Outs {
+				if strings.HasSuffix(oc, "DelErr") {
+					d.obs.failDelete[it] = true
+				}
+			}
+			if o.ScanFailAfter != nil {
+				d.obs.scanFailAfter = *o.ScanFailAfter
+			}
+			d.obs.mu.Unlock()
+		}
 		d.h.Recover(context.Background())
+		if d.obs != nil {
+			d.obs.mu.Lock()
+			d.obs.failDelete = nil
+			d.obs.scanFailAfter = -1
+			d.obs.mu.Unlock()
+		}
 		d.log.mu.Lock()
+		d.log.hook = nil
 		impl["calls"] = append([][3]string{}, d.log.calls...)
 		d.log.mu.Unlock()
+		impl["fired"] = fired
 	case "dump":
 		ents, err := d.dump()
 		if err != nil {
@@ -417,6 +560,7 @@ var allTypes = []string{"create-lambda", "create-workload", "workload-allocated"
 var outcomes = []string{"ok", "ok", "handleErr", "notNeeded", "checkErr", "decodeErr"}
 
 type gen struct {
+	plain    bool
 	r        *hx.Rng
 	n        int
 	reg      map[string]bool
@@ -456,6 +600,9 @@ func (g *gen) outs() map[string]string {
 			}
 		case 2:
 			m[it] = hx.Pick(g.r, outcomes...)
+			if !g.plain && g.r.Chance(15) { // the KV Delete of the handled event fails
+				m[it] = hx.Pick(g.r, "okDelErr", "notNeededDelErr")
+			}
 		case 3:
 			m[it] = hx.Pick(g.r, "handleErr", "checkErr", "decodeErr")
 		}
@@ -474,7 +621,7 @@ func remove(xs []string, x string) []string {
 }
 
 func genCase(r *hx.Rng, plain bool, maxOps int) *kase {
-	g := &gen{r: r, reg: map[string]bool{}}
+	g := &gen{r: r, plain: plain, reg: map[string]bool{}}
 	for _, t := range allTypes {
 		if r.Chance(75) {
 			g.reg[t] = true
@@ -508,6 +655,11 @@ func genCase(r *hx.Rng, plain bool, maxOps int) *kase {
 			it := g.item()
 			k.Ops = append(k.Ops, &op{Op: "begin", Typ: g.pickReg(), Item: it})
 			g.inflight = append(g.inflight, it)
+		case c < 50 && !plain && len(g.inflight) > 0 && r.Chance(25):
+			// the Put of an in-flight Log fails: id consumed, nothing stored
+			it := g.inflight[r.Intn(len(g.inflight))]
+			g.inflight = remove(g.inflight, it)
+			k.Ops = append(k.Ops, &op{Op: "failput", Item: it})
 		case c < 50 && !plain && len(g.inflight) > 0:
 			it := g.inflight[r.Intn(len(g.inflight))]
 			g.inflight = remove(g.inflight, it)
@@ -556,7 +708,31 @@ func genCase(r *hx.Rng, plain bool, maxOps int) *kase {
 			k.Ops = append(k.Ops, &op{Op: "inject", Key: key, Val: hx.Pick(r, "event", "event", "garbage"), Typ: g.pickReg(), Item: it})
 			g.live = append(g.live, it)
 		case c < 97:
-			k.Ops = append(k.Ops, &op{Op: "recover", Outs: g.outs()})
+			rec := &op{Op: "recover", Outs: g.outs()}
+			if !plain && !noReg && len(g.live) > 0 && r.Chance(35) {
+				// other goroutines commit / log between the scan and the handling of some event
+				for n := r.Range(1, 3); n > 0; n-- {
+					a := &during{At: g.live[r.Intn(len(g.live))]}
+					if len(g.finished) > 0 && r.Chance(70) {
+						a.Do, a.Item = "commit", g.finished[r.Intn(len(g.finished))]
+						if strings.HasSuffix(rec.Outs[a.Item], "DelErr") {
+							continue // its Delete is made to fail during this recovery
+						}
+						if r.Chance(85) {
+							g.finished = remove(g.finished, a.Item)
+						}
+					} else {
+						a.Do, a.Item, a.Typ = "log", g.item(), g.pickReg()
+						g.finished, g.live = append(g.finished, a.Item), append(g.live, a.Item)
+					}
+					rec.During = append(rec.During, a)
+				}
+			}
+			if !plain && !allowInject && r.Chance(8) {
+				n := r.Intn(4)
+				rec.ScanFailAfter = &n
+			}
+			k.Ops = append(k.Ops, rec)
 			if !plain {
 				k.Ops = append(k.Ops, &op{Op: "dump"})
 			}
@@ -578,7 +754,15 @@ func genCase(r *hx.Rng, plain bool, maxOps int) *kase {
 
 func fixedCorpus() []*kase {
 	T := allTypes
+	two := 2
 	return []*kase{
+		// a Commit lands between the scan and the handling: the handler still runs for "b" (and "c" logged meanwhile is not replayed)
+		{Reg: T, Ops: []*op{{Op: "log", Typ: T[0], Item: "a"}, {Op: "log", Typ: T[1], Item: "b"},
+			{Op: "recover", During: []*during{{At: "a", Do: "commit", Item: "b"}, {At: "a", Do: "log", Item: "c", Typ: T[0]}, {At: "b", Do: "commit", Item: "b"}}}, {Op: "dump"}, {Op: "recover"}, {Op: "dump"}}},
+		// KV faults: Delete fails for "a", the Put of "c" fails, the scan fails after 2 entries
+		{Reg: T, Ops: []*op{{Op: "log", Typ: T[0], Item: "a"}, {Op: "log", Typ: T[1], Item: "b"}, {Op: "begin", Typ: T[2], Item: "c"}, {Op: "failput", Item: "c"}, {Op: "log", Typ: T[2], Item: "d"},
+			{Op: "recover", Outs: map[string]string{"a": "okDelErr", "b": "notNeededDelErr"}}, {Op: "dump"},
+			{Op: "recover", ScanFailAfter: &two}, {Op: "dump"}, {Op: "recover"}, {Op: "dump"}}},
 		{Reg: T, Ops: []*op{{Op: "log", Typ: T[0], Item: "a"}, {Op: "log", Typ: T[1], Item: "b"}, {Op: "commit", Item: "a"}, {Op: "reopen", Reg: T},
 			{Op: "log", Typ: T[0], Item: "c"}, {Op: "recover", Outs: map[string]string{"b": "handleErr"}}, {Op: "dump"}, {Op: "recover"}, {Op: "dump"}}},
 		{Reg: T, Ops: []*op{{Op: "begin", Typ: T[0], Item: "a"}, {Op: "begin", Typ: T[0], Item: "b"}, {Op: "finish", Item: "b"}, {Op: "recover", Outs: map[string]string{"b": "checkErr"}},
